@@ -736,7 +736,16 @@ func genLayer(t *rapid.T, idx int) Layer {
 		switch rapid.IntRange(0, 3).Draw(t, "k"+p) {
 		case 0, 1: // absent
 		case 2:
-			m[p] = Entry{Content: rapid.StringMatching(`[a-z]{0,3}`).Draw(t, "c"+p) + fmt.Sprint(idx), Mode: uint32(rapid.SampledFrom([]int{0o644, 0o600, 0o755, 0o444}).Draw(t, "m"+p))}
+			content := rapid.StringMatching(`[a-z]{0,3}`).Draw(t, "c"+p) + fmt.Sprint(idx)
+			// boundary sizes (round 16): a file of exactly 0 bytes is still a file the layer HAS (empty is
+			// not absent); contents around the block sizes readers and copiers work in
+			switch rapid.IntRange(0, 7).Draw(t, "sz"+p) {
+			case 0, 1:
+				content = ""
+			case 2:
+				content = strings.Repeat(content+"-", rapid.SampledFrom([]int{4095, 4096, 4097, 32768, 65537}).Draw(t, "szn"+p)/(len(content)+1)+1)
+			}
+			m[p] = Entry{Content: content, Mode: uint32(rapid.SampledFrom([]int{0o644, 0o600, 0o755, 0o444}).Draw(t, "m"+p))}
 			blocked[p] = true
 		case 3:
 			m[p] = Entry{Dir: true}
